@@ -93,7 +93,7 @@ def main(a):
         cut = next((i for i, l in enumerate(lines) if l.startswith("Retired seeded changes")), len(lines))
         while cut > 0 and not lines[cut - 1].startswith("|"):
             cut -= 1
-        new = []
+        newrows = []
         for i in a[1:]:
             d = os.path.join(ROOT, "seeded", i)
             meta = json.load(open(os.path.join(d, "meta.json")))
@@ -111,11 +111,11 @@ def main(a):
                 sig = r.get("first", "")
                 sig = sig[sig.find("sig="):][:90] if "sig=" in sig else ""
                 print("%-8s %-8s %-40s %s %s" % (r["status"], th, i, prop, sig), flush=True)
-                new.append("| %s | %s | seeded | %s | %s | %s | `%s` | %s |" % (prop, i, r.get("suite"), r["status"], th, sig.replace("|", "\\|"), meta.get("needs_to_manifest", "").replace("|", "/")))
+                newrows.append("| %s | %s | seeded | %s | %s | %s | `%s` | %s |" % (prop, i, r.get("suite"), r["status"], th, sig.replace("|", "\\|"), meta.get("needs_to_manifest", "").replace("|", "/")))
         cut = next((k for k, l in enumerate(lines) if l.startswith("Retired seeded changes")), len(lines))
         while cut > 0 and not lines[cut - 1].startswith("|"):
             cut -= 1
-        lines = lines[:cut] + new + lines[cut:]
+        lines = lines[:cut] + newrows + lines[cut:]
         open(path, "w").write("\n".join(lines) + "\n")
     elif a[0] == "all":
         # every hand mutant and every seeded change against the quick tier; whatever the quick tier misses is re-run
